@@ -463,9 +463,12 @@ theorem checkEquationWith_missing {needs : Eqn → List Name × List Name} {arrs
     -- every entry is about the destination or a source, and lists exactly the
     -- needed names that array lacks
     (∀ err ∈ errs,
-      (err.1 = e.dest ∧ ∀ x, x ∈ err.2 ↔ x ∈ (needs e).2.map strip ∧ x ∉ d.props) ∨
+      (err.1 = e.dest ∧ (∀ x, x ∈ err.2 ↔ x ∈ (needs e).2.map strip ∧ x ∉ d.props) ∧
+        ((∃ x ∈ (needs e).2.map strip, x ∉ d.props) ∨ ∀ x ∈ d.props, x ∈ (needs e).2.map strip)) ∨
       (∃ s ∈ e.sources.getD [], ∃ a, findArr arrs s = some a ∧ err.1 = s ∧
-        ∀ x, x ∈ err.2 ↔ x ∈ (needs e).1.map strip ∧ x ∉ a.props)) ∧
+        (∀ x, x ∈ err.2 ↔ x ∈ (needs e).1.map strip ∧ x ∉ a.props) ∧
+        ((∃ x ∈ (needs e).1.map strip, x ∉ a.props) ∨
+          ∀ x ∈ a.props, x ∈ (needs e).1.map strip))) ∧
     -- and nothing that is missing is left out
     (∀ x ∈ (needs e).2.map strip, x ∉ d.props → ∃ err ∈ errs, err.1 = e.dest ∧ x ∈ err.2) ∧
     (∀ s ∈ e.sources.getD [], ∀ a, findArr arrs s = some a →
@@ -487,14 +490,14 @@ theorem checkEquationWith_missing {needs : Eqn → List Name × List Name} {arrs
         rw [hc] at h
         simp only [Verdict.missing.injEq] at h
         obtain ⟨hn, herrs⟩ := h
-        obtain ⟨c1, c2, _⟩ := checkArray_some hc
+        obtain ⟨c1, c2, c3⟩ := checkArray_some hc
         subst herrs
         refine ⟨hn.symm, by simp, d, rfl, by simp, ?_, ?_, by simp⟩
         · intro err' he'
           simp only [List.mem_singleton] at he'
           subst he'
           left
-          exact ⟨by rw [c1, hdn], c2⟩
+          exact ⟨by rw [c1, hdn], c2, c3⟩
         · intro x hx hxd
           exact ⟨err, by simp, by rw [c1, hdn], (c2 x).mpr ⟨hx, hxd⟩⟩
     | some srcs =>
@@ -527,14 +530,14 @@ theorem checkEquationWith_missing {needs : Eqn → List Name × List Name} {arrs
                 cases hcc : checkArray d ((needs e).2.map strip) with
                 | none => rw [hcc] at he; simp at he
                 | some x => rw [hcc] at he; simp at he; rw [he]
-              obtain ⟨c1, c2, _⟩ := checkArray_some hc
-              exact ⟨by rw [c1, hdn], c2⟩
+              obtain ⟨c1, c2, c3⟩ := checkArray_some hc
+              exact ⟨by rw [c1, hdn], c2, c3⟩
             · right
               obtain ⟨s, hsm, hcs⟩ := List.mem_filterMap.mp he
               obtain ⟨a, ha⟩ := hall s hsm
               simp only [checkSrc, ha] at hcs
-              obtain ⟨c1, c2, _⟩ := checkArray_some hcs
-              exact ⟨s, by simpa using hsm, a, ha, by rw [c1, (findArr_name ha).1], c2⟩
+              obtain ⟨c1, c2, c3⟩ := checkArray_some hcs
+              exact ⟨s, by simpa using hsm, a, ha, by rw [c1, (findArr_name ha).1], c2, c3⟩
           · intro x hx hxd
             cases hcc : checkArray d ((needs e).2.map strip) with
             | none => exact absurd (checkArray_none hcc x hx) hxd
